@@ -368,7 +368,7 @@ Print Assumptions C17_status_numbering.
 (* default status filters always name values of the status enum (after fix 705ef70) *)
 Theorem C17_default_filters_are_statuses : forall e fl f,
   default_filters e (requested_filters e) = Some fl -> In f fl ->
-  In f (map fst (status_values (status_prefix e) (e_status e))).
+  In f (map fst (entity_status_values e)).
 Proof. exact default_filters_are_enum_values. Qed.
 Print Assumptions C17_default_filters_are_statuses.
 
@@ -534,7 +534,7 @@ Example C17_example :
   /\ nth 0 (query_paths C17_sample) [] = bs "/foo/v1/foo_s/q/{foo_id}/{account_id}"
   /\ nth 2 (query_paths C17_sample) [] = bs "/foo/v1/foo_s/q/{foo_id}/{account_id}/events"
   /\ path_key_names C17_sample = [bs "foo_id"; bs "account_id"]
-  /\ status_values (status_prefix C17_sample) (e_status C17_sample)
+  /\ entity_status_values C17_sample
      = [(bs "FOO_S_STATUS_UNSPECIFIED", 0); (bs "FOO_S_STATUS_ACTIVE", 1); (bs "FOO_S_STATUS_INACTIVE", 2)]
   /\ Forall (fun k => no_slash (uf_name (k_def k)) = true) (e_keys C17_sample)
   /\ upper_word (e_name C17_sample) = true /\ fields_ok C17_sample = true
